@@ -71,7 +71,8 @@ ICChoices(vs) ==
 
 Mk(b, hw, x, ic, r) ==
     [bp |-> b, vars |-> BP(b), exo |-> ExoSpec(x.form, x.extra, hw.h), ics |-> ic.ics,
-     icform |-> ic.icform, horizon |-> hw.h, where |-> hw.w, reduce |-> r, late |-> hw.late]
+     icform |-> ic.icform, horizon |-> hw.h, where |-> hw.w, reduce |-> r, late |-> hw.late,
+     bmax |-> hw.bmax]
 
 (* Initial states are enumerated by quantification (building the set of all configurations  *)
 (* first and normalising it costs TLC far more than exploring it).                          *)
@@ -81,10 +82,15 @@ StartWith(c) == /\ cfg = c /\ phase = S0.phase /\ vlist = S0.vars /\ deco = S0.d
 
 (* (horizon, placement, late value): the late value is written to the solver attribute after *)
 (* parsing and is larger (h+1, h+2) or smaller (h-1) than the horizon of the block           *)
-HW(hs) == { [h |-> h, w |-> w, late |-> 0] : h \in hs, w \in {"block", "solver"} }
-          \cup { [h |-> 0, w |-> "default", late |-> 0] }
-          \cup { [h |-> h, w |-> w, late |-> h + d] : h \in hs, w \in {"late_ctor", "late_parse"}, d \in {1, 2} }
-          \cup { [h |-> h, w |-> w, late |-> h - 1] : h \in hs \ {0}, w \in {"late_ctor", "late_parse"} }
+(* "both": the solver attribute (h, 0 included) and a MaxTime line with another value: larger *)
+(* (h+2), smaller (h-1), and 0 against a positive solver value                               *)
+HW(hs) == { [h |-> h, w |-> w, late |-> 0, bmax |-> 0] : h \in hs, w \in {"block", "solver"} }
+          \cup { [h |-> 0, w |-> "default", late |-> 0, bmax |-> 0] }
+          \cup { [h |-> h, w |-> w, late |-> h + d, bmax |-> 0] : h \in hs, w \in {"late_ctor", "late_parse"}, d \in {1, 2} }
+          \cup { [h |-> h, w |-> w, late |-> h - 1, bmax |-> 0] : h \in hs \ {0}, w \in {"late_ctor", "late_parse"} }
+          \cup { [h |-> h, w |-> "both", late |-> 0, bmax |-> h + 2] : h \in hs }
+          \cup { [h |-> h, w |-> "both", late |-> 0, bmax |-> h - 1] : h \in hs \ {0} }
+          \cup { [h |-> h, w |-> "both", late |-> 0, bmax |-> 0] : h \in hs \ {0, 1} }
 
 (* quick: the rejected forms are not crossed with every initial-condition choice *)
 KeepQuick(c) == /\ ExoRejected(c) => (c.ics = << >> \/ (Len(c.ics) > 1 /\ c.icform = "float"))
@@ -92,6 +98,7 @@ KeepQuick(c) == /\ ExoRejected(c) => (c.ics = << >> \/ (Len(c.ics) > 1 /\ c.icfo
                 /\ ~c.reduce => c.icform # "int"
                 /\ IsLate(c) => (c.reduce /\ c.icform = "float" /\ (c.ics = << >> \/ Len(c.ics) > 1)
                                  /\ c.late # c.horizon + 1)
+                /\ c.where = "both" => (c.reduce /\ c.icform = "float" /\ (c.ics = << >> \/ Len(c.ics) > 1))
 
 InitQuick ==
     \E b \in BPs, hw \in HW(0..3), x \in ExoQuick, r \in BOOLEAN :
@@ -101,7 +108,9 @@ InitQuick ==
 InitThorough ==
     \E b \in BPs, hw \in HW(0..5), x \in ExoThorough, r \in BOOLEAN :
         \E ic \in ICChoices(BP(b)) :
-            LET c == Mk(b, hw, x, ic, r) IN (IsLate(c) => (c.reduce /\ c.late # c.horizon + 1)) /\ StartWith(c)
+            LET c == Mk(b, hw, x, ic, r)
+                keep == (IsLate(c) => (c.reduce /\ c.late # c.horizon + 1)) /\ (c.where = "both" => c.reduce)
+            IN keep /\ StartWith(c)
 
 NoConfigs == {}
 
